@@ -117,22 +117,26 @@ def ai_payload(w, repo, session, f):
 
 
 def overlapping_windows(seq, journal="checkpoints", domains=None, is_git=None):
-    """Finding D8 by call site. True when two processes that share a journal (same work tree: linked worktrees have private working
-    logs) were inside their lost-update windows at the same moment of the schedule.  The windows are those of the unchanged code:
-    for an agent report, from entering `append_checkpoint` (sync point `checkpoints.append`, immediately followed by the read it
-    appends to) to the release of its `checkpoints.write`; for a git command (the post-commit consumer reads the journal, writes
-    the note and archives the log), from its first journal read to its exit.  A lost report whose schedule shows no such overlap -
-    for instance because a report was appended to a journal snapshot read *before* `append_checkpoint` - is not this finding."""
-    inside = set()
+    """Finding D8 by call site. True when two processes were inside their lost-update windows ON THE SAME JOURNAL at the same moment of
+    the schedule (sync-point names carry the journal's identity: `checkpoints.read@<working log dir>`).  The windows are those of the
+    unchanged code: for an agent report, from entering `append_checkpoint` (sync point `checkpoints.append`, immediately followed by
+    the read it appends to) to the release of its `checkpoints.write`; for a git command (the post-commit consumer reads the journal,
+    writes the note and archives the log), from its first read of that journal to its exit.  A lost report whose schedule shows no
+    such overlap - a report appended to a journal snapshot read *before* `append_checkpoint`, or a journal wiped by a process that
+    never read it - is not this finding."""
+    inside = {}          # journal id -> set of processes inside a window on it
     for who, point in seq:
+        name, _, jid = point.partition("@")
         git = bool(is_git[who]) if is_git else False
-        if (point == journal + ".append" and not git) or (point == journal + ".read" and git):
-            inside.add(who)
-            doms = [domains[i] if domains else 0 for i in inside]
-            if len(doms) != len(set(doms)):
+        if (name == journal + ".append" and not git) or (name == journal + ".read" and git):
+            inside.setdefault(jid, set()).add(who)
+            if len(inside[jid]) > 1:
                 return True
-        elif point == "exit" or (point == journal + ".write" and not git):
-            inside.discard(who)
+        elif point == "exit":
+            for v in inside.values():
+                v.discard(who)
+        elif name == journal + ".write" and not git:
+            inside.get(jid, set()).discard(who)
     return False
 
 
@@ -165,6 +169,16 @@ def scenario(kind, choices, serial=None):
             cmds = [(["commit", "-q", "-m", "c1"], repo, True),
                     (["checkpoint", "agent-v1", "--hook-input", ai_payload(w, repo, "S2", "b.txt")], repo, False)]
             probes = [(repo, "a.txt", "ai line of S1"), (repo, "b.txt", "ai line of S2")]
+        elif kind == "ckpt-commit-leftover":
+            # the commit takes a.txt only; c.txt keeps an agent's unstaged lines (carried over to the new commit's working log as
+            # INITIAL by post-commit); another agent reports b.txt while the commit is running
+            w.human_ckpt(["a.txt"]); w.write_bytes("a.txt", b"one\ntwo\nthree\nai line of S1\n"); w.ai_ckpt("S1", ["a.txt"])
+            w.human_ckpt(["c.txt"]); w.write_bytes("c.txt", b"one\ntwo\nthree\nai line of S3\n"); w.ai_ckpt("S3", ["c.txt"])
+            w.git("add", "a.txt")
+            w.human_ckpt(["b.txt"]); w.write_bytes("b.txt", b"one\ntwo\nthree\nai line of S2\n")
+            cmds = [(["commit", "-q", "-m", "c1"], repo, True),
+                    (["checkpoint", "agent-v1", "--hook-input", ai_payload(w, repo, "S2", "b.txt")], repo, False)]
+            probes = [(repo, "a.txt", "ai line of S1"), (repo, "b.txt", "ai line of S2"), (repo, "c.txt", "ai line of S3")]
         elif kind in ("commit-commit-wt", "commit-rebase-wt"):
             wt = os.path.join(w.root, "wt2")
             w.git("worktree", "add", "-q", "-b", "other", wt, plain=True)
@@ -348,7 +362,7 @@ def main(tier, seed, replay=None):
         rep.add_results([run_case(case)])
         return rep.finish(min_nontrivial=0)
     witnesses.replay_for(rep, "C11")
-    kinds = ["ckpt-ckpt-diff", "ckpt-ckpt-same", "ckpt-commit", "commit-commit-wt"] + (["commit-rebase-wt"] if tier == "thorough" else [])
+    kinds = ["ckpt-ckpt-diff", "ckpt-ckpt-same", "ckpt-commit", "ckpt-commit-leftover", "commit-commit-wt"] + (["commit-rebase-wt"] if tier == "thorough" else [])
     limit = 6 if tier == "quick" else 600
     nrand = 14 if tier == "quick" else 60
     import concurrent.futures as cf
